@@ -91,10 +91,18 @@ def impl_functions():
     fs['serializer_prefixize_uri_if_possible'] = lambda strs, flag, opt: bs.BaseStatementSerializer._prefixize_uri_if_possible(
         strs[0], dict(zip(strs[1::2], strs[2::2])))
     fs['get_shape_label_for_class_uri'] = lambda strs, flag, opt: l2s.ListOfClassesToShapeMap._get_shape_label_for_class_uri(None, strs[0])
+    fs['add_corners'] = lambda strs, flag, opt: uri.add_corners(strs[0])
+    fs['add_corners_if_needed'] = lambda strs, flag, opt: uri.add_corners_if_needed(strs[0])
+    fs['add_corners_if_it_is_an_uri'] = lambda strs, flag, opt: uri.add_corners_if_it_is_an_uri(strs[0])
+    fs['there_is_arroba_after_last_quotes'] = lambda strs, flag, opt: "1" if uri.there_is_arroba_after_last_quotes(strs[0]) else "0"
+    fs['unprefixize_uri_if_possible'] = lambda strs, flag, opt: uri.unprefixize_uri_if_possible(strs[0], dict(zip(strs[1::2], strs[2::2])), flag)
+    fs['unprefixize_uri_mandatory'] = lambda strs, flag, opt: uri.unprefixize_uri_mandatory(strs[0], dict(zip(strs[1::2], strs[2::2])), flag)
+    fs['prefixize_uri_if_possible'] = lambda strs, flag, opt: uri.prefixize_uri_if_possible(strs[0], dict(zip(strs[1::2], strs[2::2])), flag)
     return fs
 
 
-ARITY = {'serializer_prefixize_uri_if_possible': 1, 'check_if_property_belongs_to_namespace_list': 1, 'determine_suitable_iri_pattern': 0, 'longest_common_prefix': 2, 'remove_corners': 1, 'decide_literal_type': 1, 'build_shapes_name_for_class_uri': 2, 'get_shape_label_for_class_uri': 1}
+ARITY = {'add_corners': 1, 'add_corners_if_needed': 1, 'add_corners_if_it_is_an_uri': 1, 'there_is_arroba_after_last_quotes': 1,
+         'unprefixize_uri_if_possible': 1, 'unprefixize_uri_mandatory': 1, 'prefixize_uri_if_possible': 1, 'serializer_prefixize_uri_if_possible': 1, 'check_if_property_belongs_to_namespace_list': 1, 'determine_suitable_iri_pattern': 0, 'longest_common_prefix': 2, 'remove_corners': 1, 'decide_literal_type': 1, 'build_shapes_name_for_class_uri': 2, 'get_shape_label_for_class_uri': 1}
 
 
 def gen_function(rng, names):
@@ -113,6 +121,23 @@ def gen_function(rng, names):
         strs = [rng.choice(nss) + tail]
         for k in keys:
             strs += [k, rng.choice(['ex', 'e', '', 'x1'])]
+    if name in ('unprefixize_uri_if_possible', 'unprefixize_uri_mandatory'):
+        pres = ['ex', 'e', 'http', 'xsd', '', 'a:b', 'ex:']
+        keys = rng.sample(pres, rng.randint(0, 4))
+        strs = [rng.choice(['<', '']) + rng.choice(pres + ['zz', 'https']) + rng.choice([':', '://', '', ':ex:']) + rstr(rng, ['p', 'q', '/', '#', 'ex:', ':', '>'], 0, 3)]
+        for k in keys:
+            strs += [k, rng.choice(['http://example.org/', 'http://e.org/ns#', '', 'ex:'])]
+    if name == 'prefixize_uri_if_possible':
+        nss = ['http://example.org/', 'http://example.org/deep/', 'http://example.org/dee', 'http://example.org/ns#', 'urn:x:', 'ab', '<http://example.org/', '']
+        keys = rng.sample(nss, rng.randint(0, 4))
+        body = rng.choice(nss) + rstr(rng, ['p', 'q', '/', '#', '1', 'deep', 'urn:x:', 'ab', 'http://example.org/'], 0, 3)
+        strs = [rng.choice(['<%s>', '<%s>', '%s', '<%s', '%s>']) % body]
+        for k in keys:
+            strs += [k, rng.choice(['ex', 'e', '', 'x1'])]
+    if name == 'there_is_arroba_after_last_quotes':
+        strs = [rstr(rng, ['"', '@', 'a', 'en', '\\"', '^^', ' '], 0, 7)]
+    if name in ('add_corners_if_needed', 'add_corners_if_it_is_an_uri'):
+        strs = [rng.choice(['', '<', 'http://', 'https://', 'http:/', 'HTTP://', ' http://', 'urn:', '_:']) + rstr(rng, PIECES, 0, 3)]
     if name == 'build_shapes_name_for_class_uri' and rng.random() < 0.7:
         strs[1] = rng.choice(['http://weso.es/shapes/', 'http://example.org/s#', ''])
     flag = rng.random() < 0.5
